@@ -1,0 +1,17 @@
+//go:build verif
+
+// Verification hook for property C10 (build tag `verif` only): add-only accessor, no behaviour change.
+package endpoints
+
+import (
+	"istio.io/istio/pilot/pkg/model"
+	"istio.io/istio/pkg/config"
+)
+
+// VerifCheckMtlsEnabled runs the client-side auto-mTLS decision of the EDS generator
+// (newMtlsChecker + checkMtlsEnabled) for one endpoint.
+func VerifCheckMtlsEnabled(push *model.PushContext, authnPolicies model.PeerAuthnPolicies, svcPort int,
+	dr *config.Config, subset string, ep *model.IstioEndpoint, isWaypoint bool,
+) bool {
+	return newMtlsChecker(push, authnPolicies, svcPort, dr, subset).checkMtlsEnabled(ep, isWaypoint)
+}
